@@ -175,6 +175,10 @@ def _frames(table_name, table=None):
     """placeholder prefix/suffix per context (computed once per process)."""
     key = table_name
     if key not in _CACHE:
+        if not _CACHE:
+            # the very first escaping done by this process is an ATTRIBUTE escape
+            from htmltools import Tag
+            Tag("p", title='x & "y"').get_html_string()
         fr = {}
         if table_name == "core":
             table = {k: v for k, v in _contexts().items() if k in CORE}
